@@ -67,7 +67,11 @@ def handleF : List Sexp → Sexp
     | _, _ => app "err" [.atom "decode"]
   | [.atom "range", .atom lo, .atom hi, .atom inc] =>
     match decIntStr lo, decIntStr hi with
-    | some lo, some hi => app "ok" ((rangeVals lo hi (inc == "true")).map (fun i => .list [encInt i]))
+    | some lo, some hi =>
+      -- `Src.rows` of a literal range: the size cap first (TooLarge), then the elements
+      (match Src.rows [] (.range (.lit lo) (.lit hi) (inc == "true")) with
+       | .ok rows => app "ok" (rows.map (fun row => .list (row.map encInt)))
+       | .error _ => app "err" [.atom "TooLarge"])
     | _, _ => app "err" [.atom "decode"]
   | [.atom "enumerate", .list xs] =>
     match decInts xs with
